@@ -130,6 +130,8 @@ type G struct {
 	nText         int
 	nVar          int
 	nBlk          int
+	nBig          int  // long literal texts emitted so far
+	bigOK         bool // the statement being generated is rendered at most once per execution
 	nYieldContent int
 	f             *fileGen
 	incs          []string // includable files (already generated)
@@ -182,10 +184,13 @@ func (g *G) text() {
 	case 4:
 		s += "<&>"
 	}
-	if g.O.Big && g.T.Choose(6) == 0 {
-		// a long literal text: beyond 512 bytes, beyond 4 KiB, rarely beyond 64 KiB
+	if g.O.Big && g.bigOK && g.nBig < 2 && g.T.Choose(3) == 0 {
+		// a long literal text: beyond 512 bytes, beyond 4 KiB, rarely beyond 64 KiB. Only where it is
+		// rendered once per execution (not below a range, in a block, in yielded content or in an included
+		// file - nested yields and loops multiply it into gigabytes), and at most twice per world
 		n := []int{600, 600, 5000, 5000, 5000, 70000}[g.T.Choose(6)]
 		s += "[big" + strings.Repeat("z", n) + "]"
+		g.nBig++
 	}
 	g.emit(s)
 }
@@ -206,6 +211,10 @@ func (g *G) probeExpr(sc scopeInfo, inExpr bool) string {
 func (g *G) strExpr(sc scopeInfo, depth int) string {
 	var alts []string
 	alts = append(alts, `"lit"`, "s", `item.Name`, `names[0]`, `item.ExtraNote`, `root.MetaName`, `root.Col.Name`, `root.Col.Only`)
+	if g.O.Builtins {
+		// the same methods through a value and through a pointer (the method sets of T and *T differ)
+		alts = append(alts, `item.Title()`, `item.Sub.Title()`, `item.Sub.PtrName()`, `root.Items[0].Title()`)
+	}
 	if !sc.noLocals {
 		for _, v := range sc.vars {
 			alts = append(alts, v)
@@ -319,9 +328,15 @@ func (g *G) stmt(sc *scopeInfo) {
 		return 0
 	}
 	inTarget := false
+	g.bigOK = g.f.role == "main" || g.f.role == "main-target" || g.f.role == "base" || g.f.role == "child"
 	for _, e := range sc.encl {
 		if e == "TARGET" {
 			inTarget = true
+		}
+		switch e {
+		case "if", "if-let", "try", "catch", "TARGET", "deep":
+		default:
+			g.bigOK = false
 		}
 	}
 	yieldWt := 3
@@ -423,10 +438,10 @@ func (g *G) stmt(sc *scopeInfo) {
 	case 7:
 		g.blockDef(*sc)
 	case 8:
-		g.yieldStmt(*sc, false)
+		g.yieldStmt(*sc, g.probesOn && g.T.Choose(4) == 0)
 	case 9:
 		g.nYieldContent++
-		if g.O.TargetTry && g.O.Vars && g.T.Choose(2) == 1 {
+		if g.O.Vars && g.T.Choose(2) == 1 {
 			// a declaration in the list that yields the content: its scope is open (and its release
 			// pending) while the caller's content runs
 			v := g.newVar()
@@ -447,6 +462,13 @@ func (g *G) stmt(sc *scopeInfo) {
 		g.tryStmt(*sc)
 	case 12:
 		r := g.rets[g.T.Choose(len(g.rets))]
+		if g.O.Builtins && g.T.Choose(4) == 3 {
+			// a safe-writer command with several values, one of which renders another template (which may
+			// use safe writers of its own) while the command is being evaluated
+			w := []string{"raw", "unsafe", "safeHtml"}[g.T.Choose(3)]
+			g.act(fmt.Sprintf(`%s: %s, exec(%q, %s), %s`, w, g.strExpr(*sc, 1), r, g.ctxExpr(*sc, KItem), g.strExpr(*sc, 1)))
+			break
+		}
 		if g.T.Choose(2) == 1 {
 			g.act(fmt.Sprintf(`exec(%q, %s)`, r, g.ctxExpr(*sc, KItem)))
 		} else {
